@@ -59,6 +59,9 @@ type Op struct {
 }
 
 type Case struct {
+	// Pivot: number of SMB hops between the first hop and the tasked agent (0 = directly connected)
+	Pivot   int      `json:"pivot,omitempty"`
+	HopIDs  []uint32 `json:"hop_ids,omitempty"` // ids of the hops above the tasked agent, first hop first
 	AgentID uint32 `json:"agent_id"`
 	Key     []byte `json:"key"`
 	IV      []byte `json:"iv"`
@@ -373,6 +376,17 @@ func gen(t *rapid.T) Case {
 		c.Key = rapid.SliceOfN(rapid.Byte(), 32, 32).Draw(t, "key")
 		c.Key[0] |= 1
 		c.IV = rapid.SliceOfN(rapid.Byte(), 16, 16).Draw(t, "iv")
+	}
+	if rapid.IntRange(0, 4).Draw(t, "pivot?") == 0 {
+		c.Pivot = rapid.IntRange(1, 2).Draw(t, "pivot")
+		used := map[uint32]bool{c.AgentID: true}
+		for len(c.HopIDs) < c.Pivot {
+			id := rapid.OneOf(rapid.SampledFrom([]uint32{2, 0x7ffffffe, 0x80000001, 0xfffffffd, 0x00000abc}), rapid.Uint32Range(1, 0xfffffffe)).Draw(t, "hopid")
+			if !used[id] {
+				used[id] = true
+				c.HopIDs = append(c.HopIDs, id)
+			}
+		}
 	}
 	n := rapid.IntRange(1, 6).Draw(t, "nops")
 	seen := map[string]bool{}
@@ -844,24 +858,41 @@ func check(c Case) *core.Violation {
 		panic("infrastructure: " + err.Error())
 	}
 	defer w.Close()
-	s := agx.Sess{ID: c.AgentID, Key: c.Key, IV: c.IV, Meta: agx.DefaultMeta(c.AgentID)}
-	if code, _ := w.Register(s); code != 200 {
-		return core.V("setup|register-refused", "registration of %08x refused with %d", c.AgentID, code)
+	target := agx.Sess{ID: c.AgentID, Key: c.Key, IV: c.IV, Meta: agx.DefaultMeta(c.AgentID)}
+	huge := false
+	for _, op := range c.Ops {
+		huge = huge || isHuge(op)
 	}
+	pivot := c.Pivot
+	if huge || len(c.HopIDs) < pivot {
+		pivot = 0 // a batch at the pipe limit is collected over several check-ins: kept to directly connected agents
+	}
+	var chain []agx.Sess
+	for i := 0; i < pivot; i++ {
+		k, iv := hopKey(i + 1)
+		chain = append(chain, agx.Sess{ID: c.HopIDs[i], Key: k, IV: iv, Meta: agx.DefaultMeta(c.HopIDs[i])})
+	}
+	chain = append(chain, target)
+	if code, _ := w.Register(chain[0]); code != 200 {
+		return core.V("setup|register-refused", "registration of %08x refused with %d", chain[0].ID, code)
+	}
+	for i := 1; i < len(chain); i++ {
+		if v := connectChild(w, chain, i); v != nil {
+			return v
+		}
+	}
+	w.Checkin(chain[0], nil) // whatever the connects left queued is not looked at
+	s := chain[0] // the agent that checks in; tasks are addressed to target
 	var exps []expect
 	for _, op := range c.Ops {
 		m, e := info(op)
-		m["DemonID"] = s.NameID()
+		m["DemonID"] = target.NameID()
 		w.Input("op", m)
 		exps = append(exps, e)
 	}
 	code, resp := w.Post(demonref.Batch(s.ID, 0, nil, s.Key, s.IV))
 	if code != 200 {
 		return core.V("checkin|status", "check-in answered %d", code)
-	}
-	huge := false
-	for _, op := range c.Ops {
-		huge = huge || isHuge(op)
 	}
 	var tasks []demonref.Task
 	resps := [][]byte{resp}
@@ -892,6 +923,13 @@ func check(c Case) *core.Violation {
 			return core.V("checkin|status", "check-in %d answered %d", round+2, code)
 		}
 		resps = append(resps, resp)
+	}
+	if pivot > 0 {
+		// every task of the first hop's reply is followed down the chain; what the target reads is judged below
+		var v *core.Violation
+		if tasks, v = unwrapTasks(chain, tasks); v != nil {
+			return v
+		}
 	}
 	// clear-text check
 	if !allZero(c.Key) {
@@ -1075,6 +1113,9 @@ func classify(c Case) core.Class {
 	if allZero(c.Key) {
 		cl.Labels = append(cl.Labels, "zero-key")
 	}
+	if c.Pivot > 0 {
+		cl.Labels = append(cl.Labels, fmt.Sprintf("target-behind-%d-smb-hop(s)", c.Pivot))
+	}
 	if c.AgentID >= 0x80000000 {
 		cl.Labels = append(cl.Labels, "id>=2^31")
 	}
@@ -1104,7 +1145,7 @@ func classify(c Case) core.Class {
 func TestC02(t *testing.T) {
 	core.Run(t, core.Spec[Case]{
 		Property: "C02", Sub: "a",
-		Rule: "1-6 operator Session/Input packages (60 command/sub-command shapes, parameters from classes empty/ascii/NUL-terminated/BMP/astral/70000 chars/path/marker, boundary ints, 8-hex task ids incl. >=2^31, one op in eight reusing the id of an earlier, still outstanding task) for one registered agent (random or all-zero key) -> real DispatchEvent/TaskPrepare/AddJobToQueue -> check-in through the real listener engine (binaries of about the 30 MiB pipe limit, 1 in 60, are collected over successive check-ins until the no-job reply) -> reply decoded by the Demon-side reference reader with the dispatcher loop condition read from Command.c. Oracle: per task the command id, request id == hex TaskID, every argument as the C handler's ParserGet* sequence reads it, mem-file chunks precede the command and share its id, no parameter marker in clear. Non-trivial: >=1 string/bytes argument or batch >=2; distinct = (first command kind, batch size bucket 1/2/3+, zero-key)",
+		Rule: "1-6 operator Session/Input packages (60 command/sub-command shapes, parameters from classes empty/ascii/NUL-terminated/BMP/astral/70000 chars/path/marker, boundary ints, 8-hex task ids incl. >=2^31, one op in eight reusing the id of an earlier, still outstanding task) for one registered agent (random or all-zero key; one case in five: an agent behind 1-2 SMB hops with ids from the whole range, whose tasks are followed down the chain layer by layer before they are judged) -> real DispatchEvent/TaskPrepare/AddJobToQueue -> check-in through the real listener engine (binaries of about the 30 MiB pipe limit, 1 in 60, are collected over successive check-ins until the no-job reply) -> reply decoded by the Demon-side reference reader with the dispatcher loop condition read from Command.c. Oracle: per task the command id, request id == hex TaskID, every argument as the C handler's ParserGet* sequence reads it, mem-file chunks precede the command and share its id, no parameter marker in clear. Non-trivial: >=1 string/bytes argument or batch >=2; distinct = (first command kind, batch size bucket 1/2/3+, zero-key)",
 		Gen:   gen, Check: check, Classify: classify,
 		Assumptions: []string{
 			"demonref is a manual transcription of payloads/Demon/src/core/{Parser,Command,Package}.c",
